@@ -1018,6 +1018,45 @@ func c01Gen(r *Run) {
 			must = false
 		}
 	}
+	// the *Null moves (outNull/inNull/outENull/inENull): like the plain move, plus ONE row without a
+	// current element for every input row the move finds nothing for (MODEL: Grip.C02.evalStepN with
+	// kvgraph's notion of "found nothing"), followed by every kind of step that may meet such a row
+	if !prod {
+		follow := []c01Stmt{
+			{"out": sl()}, {"in": sl("k")}, {"both": sl()}, {"outE": sl()}, {"inE": sl()}, {"bothE": sl()},
+			{"outNull": sl()}, {"inNull": sl()}, {"outENull": sl()}, {"inENull": sl("l")},
+			c01Cond("x", "GT", 0.0), c01Cond("name", "EQ", nil), c01Cond("_gid", "NEQ", "v1"), {"hasLabel": sl("A", "k")}, {"hasId": sl("v1", "v2", "e1")},
+			{"hasLabel": sl("")}, {"hasLabel": sl("", "A")}, c01Cond("_label", "EQ", ""), {"hasId": sl("")}, c01Cond("_gid", "EQ", ""),
+			{"hasKey": sl("name")}, {"as": "a"}, {"fields": sl("name")}, {"render": map[string]interface{}{"n": "name", "g": "_gid"}},
+			{"path": sl()}, {"unwind": "tags"}, {"count": ""}, {"limit": 2}, {"distinct": sl()}, {"distinct": sl("name")},
+		}
+		ngn := 2
+		if thorough {
+			ngn = len(graphs)
+		}
+		for gi := 0; gi <= ngn && gi < len(graphs); gi++ {
+			if gi == 1 {
+				continue // the empty graph
+			}
+			emit(map[string]interface{}{"op": "reset", "graph": graphs[gi]})
+			for _, start := range []c01Stmt{{"v": sl()}, {"e": sl()}, {"v": sl("v1", "zz")}} {
+				for _, nm := range []c01Stmt{{"outNull": sl()}, {"outNull": sl("k")}, {"inNull": sl()}, {"inNull": sl("nolabel")},
+					{"outENull": sl()}, {"outENull": sl("l")}, {"inENull": sl()}, {"inENull": sl("nolabel")}} {
+					r.Count("nullmove")
+					query([]c01Stmt{start, nm})
+					for _, f := range follow {
+						if gi > 0 && over(0.5) {
+							r.Count("nullmove:not-run-budget")
+							continue
+						}
+						query([]c01Stmt{start, nm, f})
+					}
+					query([]c01Stmt{start, {"as": "a"}, nm, {"as": "b"}, {"select": map[string]interface{}{"marks": sl("a", "b")}}})
+					query([]c01Stmt{start, {"as": "a"}, nm, c01Cond("$a._gid", "EQ", "v1")})
+				}
+			}
+		}
+	}
 	// the client-side query builder: prefixes of every length 0..14 extended twice
 	if !prod {
 		norm := func(q []c01Stmt) []interface{} {
